@@ -1,6 +1,6 @@
 (* The single entry point of the extracted model runner. *)
 From Coq Require Import List.
-From DSD Require Import Base.Str Base.Errors Base.Val Model.DispatchCU Model.DispatchLoops Model.DispatchIupac Model.DispatchRotation Model.DispatchPeg Model.DispatchRegistry Model.DispatchCompare Model.Views Model.DispatchKernel Model.DispatchLegacy.
+From DSD Require Import Base.Str Base.Errors Base.Val Model.DispatchCU Model.DispatchLoops Model.DispatchIupac Model.DispatchRotation Model.DispatchPeg Model.DispatchRegistry Model.DispatchCompare Model.Views Model.DispatchKernel Model.DispatchLegacy Model.DispatchReader.
 Import ListNotations.
 
 Fixpoint first_some (fs : list (pstr -> val -> option val)) (op : pstr) (a : val) : val :=
@@ -10,4 +10,4 @@ Fixpoint first_some (fs : list (pstr -> val -> option val)) (op : pstr) (a : val
   end.
 
 Definition dispatch (op : pstr) (a : val) : val :=
-  first_some [dispatch_cu; dispatch_loops; dispatch_iupac; dispatch_rotation; dispatch_peg; dispatch_registry; dispatch_compare; dispatch_views; dispatch_kernel; dispatch_legacy] op a.
+  first_some [dispatch_cu; dispatch_loops; dispatch_iupac; dispatch_rotation; dispatch_peg; dispatch_registry; dispatch_compare; dispatch_views; dispatch_kernel; dispatch_legacy; dispatch_reader] op a.
